@@ -15,6 +15,7 @@ try:
     subprocess.run("patch -p1 -s --no-backup-if-mismatch < %s" % src, shell=True, cwd=scratch, check=True)
     repo = Repo(scratch)
     print("renamed back:", repo.renamed)
+    print("re-outlined:", repo.reoutlined)
     inl = repo.inliner
     if inl is not None:
         print("new:", [f.qual for f in inl.new]); print("inlined:", inl.inlined_sites); print("left:", inl.left_sites, inl.log[:5]); print("dropped:", getattr(inl, "dropped", None))
